@@ -62,8 +62,12 @@ static econf_file *build_object(Src &s, std::string &desc, std::vector<std::pair
   } else if (how == 1) {
     econf_err e = s.chance(50) ? econf_newKeyFile(&kf, '=', '#') : econf_newKeyFile_with_options(&kf, "");
     VF_CHECK(e == ECONF_SUCCESS && kf, "harness", "constructor failed");
-    econf_set_delimiter_tag(kf, '=');
-    econf_set_comment_tag(kf, '#');
+    // (an object made with an option string has no tags yet; mostly they are set, sometimes it stays like that)
+    if (!s.chance(25)) {
+      econf_set_delimiter_tag(kf, '=');
+      econf_set_comment_tag(kf, '#');
+    } else
+      g_case.tag("object_possibly_without_tags");
     int n = 1 + (int)s.below(14);
     desc = "setters:";
     for (int i = 0; i < n; i++) {
